@@ -52,7 +52,7 @@ def run_shard(ctx):
     mon_dsep.install()
     rng = ctx.rng
     hostile_seen, qcls = {}, {}
-    for i in range(ctx.share({"quick": 1500, "thorough": 30000}[ctx.tier])):
+    for i in range(ctx.share({"quick": 3000, "thorough": 30000}[ctx.tier])):
         n = rng.choice([3, 4, 4, 5, 5])
         gd = gg.random_admg(rng, n, hostile=rng.choice(gg.HOSTILE + ("bichain", "bichain")))
         q = gq.random_query(rng, gd, with_conditions=True, allow_empty_x=True)
